@@ -313,6 +313,22 @@ func C02(c *core.Ctx) {
 				c.Decide(path == nil && per[0] > 0, "R2.2", key, c.Pos(e), "with a hop limit present every path to this emission stores *HopLimitV-1 first", "an emission is reachable with a hop limit present without passing the store *HopLimitV = *HopLimitV - 1; path: "+p.PathString(path))
 			}
 
+			// R2.2b: the zero test is made on the hop limit that ARRIVED: the decrement is
+			// reachable only on the edge asserting that the hop limit is not zero (a decrement
+			// placed before the test turns an arriving 0 into 255 and the Interest goes out)
+			{
+				var decrs []ssa.Instruction
+				core.InstrsDeep(pii, func(in ssa.Instruction) {
+					if isDecr(in) {
+						decrs = append(decrs, in)
+					}
+				})
+				if len(decrs) > 0 {
+					g := core.GateDeep(pii, decrs, neg(hopZero))
+					c.Decide(g.OK && g.PerLit[0] > 0, "R2.2", "hop-zero-tested-before-decrement", c.Pos(decrs[0]), "the hop limit is decremented only behind the test that it is not zero", "the hop limit is decremented on a path that has not tested the arriving value for zero: an Interest arriving with HopLimit 0 wraps around to 255 and is forwarded")
+				}
+			}
+
 			// NextHopFaceId shortcut: receiver is GetFace(*packet.NextHopFaceID)
 			for _, ci := range core.FindCallsDeep(pii, idSendPacket) {
 				recv, _ := core.CallArgs(ci.Common())
@@ -913,6 +929,69 @@ func C02(c *core.Ctx) {
 		}
 	}
 
+	// R2.8b: the packet the pipeline edits IS the packet it sends. The link service hands up
+	// the parsed packet (Pkt.L3, whose HopLimitV points into the buffer it was parsed from)
+	// together with the bytes that are forwarded (Pkt.Raw): both must be the same buffer, or
+	// the hop-limit decrement edits a copy and the original hop limit goes out (for a
+	// reassembled message, Join copies).
+	if hif := c.Fn("R2.8", "fw/face", "NDNLPLinkService", "handleIncomingFrame"); hif != nil {
+		type stv struct {
+			in  ssa.Instruction
+			val ssa.Value
+		}
+		var raws, l3s []stv
+		core.InstrsDeep(hif, func(in ssa.Instruction) {
+			if _, v, ok := storeToField(in, "Pkt", "Raw"); ok {
+				raws = append(raws, stv{in, v})
+			}
+			if _, v, ok := storeToField(in, "Pkt", "L3"); ok {
+				l3s = append(l3s, stv{in, v})
+			}
+		})
+		nPair := 0
+		for i, l3 := range l3s {
+			// the buffer the packet was parsed from
+			var src ssa.Value
+			v := core.Strip(l3.val)
+			if ex, ok := v.(*ssa.Extract); ok {
+				v = ex.Tuple
+			}
+			if cl, ok := v.(*ssa.Call); ok {
+				if id, okID := core.Callee(&cl.Call); okID && id.Name == "ReadPacket" && len(cl.Call.Args) > 0 {
+					rd := core.Strip(cl.Call.Args[len(cl.Call.Args)-1])
+					if mi, isMI := rd.(*ssa.MakeInterface); isMI {
+						rd = core.Strip(mi.X)
+					}
+					if rc, isC := rd.(*ssa.Call); isC && len(rc.Call.Args) == 1 {
+						if rid, okR := core.Callee(&rc.Call); okR && (rid.Name == "NewBufferReader" || rid.Name == "NewWireReader") {
+							src = rc.Call.Args[0]
+						}
+					}
+				}
+			}
+			// the Raw stored on the same path (same block, else the nearest dominating one)
+			var raw *stv
+			for j := range raws {
+				if raws[j].in.Block() == l3.in.Block() {
+					raw = &raws[j]
+				}
+			}
+			if raw == nil {
+				for j := range raws {
+					if raws[j].in.Parent() == l3.in.Parent() && raws[j].in.Block().Dominates(l3.in.Block()) {
+						raw = &raws[j]
+					}
+				}
+			}
+			if raw == nil {
+				continue
+			}
+			nPair++
+			ok := src != nil && (core.Strip(src) == core.Strip(raw.val) || core.Same(src, raw.val))
+			c.Decide(ok, "R2.8", fmt.Sprintf("parsed-packet-is-the-forwarded-buffer#%d", i), c.Pos(l3.in), "Pkt.L3 is parsed from the buffer stored as Pkt.Raw", "the link service parses the network packet from another buffer ("+describeValue(src)+") than the one it hands up as Pkt.Raw ("+describeValue(raw.val)+"): fields that alias the parsed buffer (HopLimitV) are edited in a copy, and the forwarded bytes keep the hop limit that arrived")
+		}
+		c.Floor("R2.8", "Pkt.L3 / Pkt.Raw pairs handed up by the link service", nPair, 1)
+	}
 	// R2.8: HopLimitV points into the wire buffer.
 	if ps := c.Fn("R2.8", "std/ndn/spec_2022", "InterestParsingContext", "Parse"); ps != nil {
 		n := 0
